@@ -112,13 +112,11 @@ Record item := mkItem {
   i_target : option nat;
   i_charge : option nat;
   i_autos : list (Z * nat);        (* effect id -> autocharge item *)
-  i_cache : list (Z * Q);          (* __modified_attrs *)
-  i_capmap : list (Z * list Z);    (* capping attr -> capped attrs *)
   i_level : Z                      (* skills: level behind the skill_level override *)
 }.
 
 Definition new_item (c : icls) (tid : Z) (st : Z) (lvl : Z) : item :=
-  mkItem c tid st None None [] [] None None [] [] [] lvl.
+  mkItem c tid st None None [] [] None None [] lvl.
 
 (* ------------------------------------------------------------------ *)
 (* fits, fleets, solar systems                                         *)
@@ -194,8 +192,7 @@ Record calc := mkCalc {
 Definition empty_calc : calc :=
   mkCalc [] [] [] [] [] [] [] [] [] [] [] [] [] [] [] [] [] [].
 
-Record solsys := mkSolsys {
-  ss_source : option nat; ss_fits : list nat; ss_calc : calc }.
+Record solsys := mkSolsys { ss_source : option nat; ss_fits : list nat }.
 
 (* messages (eos/pubsub/message/*.py) *)
 Inductive msg :=
@@ -231,13 +228,22 @@ Record world := mkWorld {
   w_fits : list (nat * fit);
   w_ss : list (nat * solsys);
   w_fleets : list (nat * list nat);
-  w_next : nat;                    (* fresh ids for autocharges and buff modifiers *)
-  w_pen : list Q;                  (* PENALTY_BASE ** (pos ** 2), pos = 0.. *)
-  w_err : option ierr;
-  w_trace : list (nat * msg) }.    (* messages delivered during the current step, newest first *)
+  w_next : nat;                    (* fresh ids for autocharges *)
+  w_err : option ierr }.
 
-Definition empty_world (pen : list Q) : world :=
-  mkWorld [] [] [] [] [] 1000%nat pen None [].
+(* what the services derive and maintain: per-item value caches and cap maps
+   (MutableAttrMap), the calculator registers of each solar system *)
+Record icache := mkICache { ic_vals : list (Z * Q); ic_caps : list (Z * list Z) }.
+Record derived := mkDerived {
+  d_caches : list (nat * icache);
+  d_calcs : list (nat * calc);
+  d_next : nat;                    (* fresh ids for warfare-buff modifiers *)
+  d_pen : list Q;                  (* PENALTY_BASE ** (pos ** 2), pos = 0.. *)
+  d_err : option ierr;
+  d_trace : list (nat * msg) }.    (* messages delivered during the current step, newest first *)
+
+Definition empty_world : world := mkWorld [] [] [] [] [] 1000%nat None.
+Definition empty_derived (pen : list Q) : derived := mkDerived [] [] 1000%nat pen None [].
 
 (* ------------------------------------------------------------------ *)
 (* accessors / updaters                                                *)
@@ -247,21 +253,39 @@ Definition get_fit (w : world) (f : nat) : option fit := al_get neqb (w_fits w) 
 Definition get_ss (w : world) (s : nat) : option solsys := al_get neqb (w_ss w) s.
 Definition get_src (w : world) (s : nat) : option universe := al_get neqb (w_srcs w) s.
 
-Definition set_items (w : world) l := mkWorld (w_srcs w) l (w_fits w) (w_ss w) (w_fleets w) (w_next w) (w_pen w) (w_err w) (w_trace w).
-Definition set_fits (w : world) l := mkWorld (w_srcs w) (w_items w) l (w_ss w) (w_fleets w) (w_next w) (w_pen w) (w_err w) (w_trace w).
-Definition set_sss (w : world) l := mkWorld (w_srcs w) (w_items w) (w_fits w) l (w_fleets w) (w_next w) (w_pen w) (w_err w) (w_trace w).
-Definition set_fleets (w : world) l := mkWorld (w_srcs w) (w_items w) (w_fits w) (w_ss w) l (w_next w) (w_pen w) (w_err w) (w_trace w).
-Definition set_next (w : world) n := mkWorld (w_srcs w) (w_items w) (w_fits w) (w_ss w) (w_fleets w) n (w_pen w) (w_err w) (w_trace w).
-Definition set_srcs (w : world) l := mkWorld l (w_items w) (w_fits w) (w_ss w) (w_fleets w) (w_next w) (w_pen w) (w_err w) (w_trace w).
+Definition set_items (w : world) l := mkWorld (w_srcs w) l (w_fits w) (w_ss w) (w_fleets w) (w_next w) (w_err w).
+Definition set_fits (w : world) l := mkWorld (w_srcs w) (w_items w) l (w_ss w) (w_fleets w) (w_next w) (w_err w).
+Definition set_sss (w : world) l := mkWorld (w_srcs w) (w_items w) (w_fits w) l (w_fleets w) (w_next w) (w_err w).
+Definition set_fleets (w : world) l := mkWorld (w_srcs w) (w_items w) (w_fits w) (w_ss w) l (w_next w) (w_err w).
+Definition set_next (w : world) n := mkWorld (w_srcs w) (w_items w) (w_fits w) (w_ss w) (w_fleets w) n (w_err w).
+Definition set_srcs (w : world) l := mkWorld l (w_items w) (w_fits w) (w_ss w) (w_fleets w) (w_next w) (w_err w).
 Definition fail (w : world) (e : ierr) : world :=
   match w_err w with
   | Some _ => w
-  | None => mkWorld (w_srcs w) (w_items w) (w_fits w) (w_ss w) (w_fleets w) (w_next w) (w_pen w) (Some e) (w_trace w)
+  | None => mkWorld (w_srcs w) (w_items w) (w_fits w) (w_ss w) (w_fleets w) (w_next w) (Some e)
   end.
 Definition clear_err (w : world) : world :=
-  mkWorld (w_srcs w) (w_items w) (w_fits w) (w_ss w) (w_fleets w) (w_next w) (w_pen w) None (w_trace w).
+  mkWorld (w_srcs w) (w_items w) (w_fits w) (w_ss w) (w_fleets w) (w_next w) None.
 
-Definition set_trace (w : world) t := mkWorld (w_srcs w) (w_items w) (w_fits w) (w_ss w) (w_fleets w) (w_next w) (w_pen w) (w_err w) t.
+Definition dfail (d : derived) (e : ierr) : derived :=
+  match d_err d with
+  | Some _ => d
+  | None => mkDerived (d_caches d) (d_calcs d) (d_next d) (d_pen d) (Some e) (d_trace d)
+  end.
+Definition d_set_caches (d : derived) v := mkDerived v (d_calcs d) (d_next d) (d_pen d) (d_err d) (d_trace d).
+Definition d_set_calcs (d : derived) v := mkDerived (d_caches d) v (d_next d) (d_pen d) (d_err d) (d_trace d).
+Definition d_set_next (d : derived) v := mkDerived (d_caches d) (d_calcs d) v (d_pen d) (d_err d) (d_trace d).
+Definition d_set_trace (d : derived) v := mkDerived (d_caches d) (d_calcs d) (d_next d) (d_pen d) (d_err d) v.
+Definition d_clear (d : derived) := mkDerived (d_caches d) (d_calcs d) (d_next d) (d_pen d) None [].
+Definition empty_icache : icache := mkICache [] [].
+Definition get_icache (d : derived) (i : nat) : icache :=
+  match al_get neqb (d_caches d) i with Some c => c | None => empty_icache end.
+Definition put_icache (d : derived) (i : nat) (c : icache) : derived :=
+  match ic_vals c, ic_caps c with
+  | [], [] => d_set_caches d (al_del neqb (d_caches d) i)
+  | _, _ => d_set_caches d (al_set neqb (d_caches d) i c)
+  end.
+
 Definition put_item (w : world) (i : nat) (it : item) : world :=
   set_items w (al_set neqb (w_items w) i it).
 Definition put_fit (w : world) (f : nat) (ft : fit) : world :=
@@ -275,17 +299,15 @@ Definition upd_fit (w : world) (f : nat) (g : fit -> fit) : world :=
   match get_fit w f with Some ft => put_fit w f (g ft) | None => fail w EKeyAbsent end.
 
 (* item field setters *)
-Definition it_set_cont (it : item) c := mkItem (i_cls it) (i_tid it) (i_state it) c (i_loaded it) (i_running it) (i_modes it) (i_target it) (i_charge it) (i_autos it) (i_cache it) (i_capmap it) (i_level it).
-Definition it_set_state (it : item) s := mkItem (i_cls it) (i_tid it) s (i_cont it) (i_loaded it) (i_running it) (i_modes it) (i_target it) (i_charge it) (i_autos it) (i_cache it) (i_capmap it) (i_level it).
-Definition it_set_loaded (it : item) l := mkItem (i_cls it) (i_tid it) (i_state it) (i_cont it) l (i_running it) (i_modes it) (i_target it) (i_charge it) (i_autos it) (i_cache it) (i_capmap it) (i_level it).
-Definition it_set_running (it : item) r := mkItem (i_cls it) (i_tid it) (i_state it) (i_cont it) (i_loaded it) r (i_modes it) (i_target it) (i_charge it) (i_autos it) (i_cache it) (i_capmap it) (i_level it).
-Definition it_set_modes (it : item) m := mkItem (i_cls it) (i_tid it) (i_state it) (i_cont it) (i_loaded it) (i_running it) m (i_target it) (i_charge it) (i_autos it) (i_cache it) (i_capmap it) (i_level it).
-Definition it_set_target (it : item) t := mkItem (i_cls it) (i_tid it) (i_state it) (i_cont it) (i_loaded it) (i_running it) (i_modes it) t (i_charge it) (i_autos it) (i_cache it) (i_capmap it) (i_level it).
-Definition it_set_charge (it : item) c := mkItem (i_cls it) (i_tid it) (i_state it) (i_cont it) (i_loaded it) (i_running it) (i_modes it) (i_target it) c (i_autos it) (i_cache it) (i_capmap it) (i_level it).
-Definition it_set_autos (it : item) a := mkItem (i_cls it) (i_tid it) (i_state it) (i_cont it) (i_loaded it) (i_running it) (i_modes it) (i_target it) (i_charge it) a (i_cache it) (i_capmap it) (i_level it).
-Definition it_set_cache (it : item) c := mkItem (i_cls it) (i_tid it) (i_state it) (i_cont it) (i_loaded it) (i_running it) (i_modes it) (i_target it) (i_charge it) (i_autos it) c (i_capmap it) (i_level it).
-Definition it_set_capmap (it : item) c := mkItem (i_cls it) (i_tid it) (i_state it) (i_cont it) (i_loaded it) (i_running it) (i_modes it) (i_target it) (i_charge it) (i_autos it) (i_cache it) c (i_level it).
-Definition it_set_level (it : item) l := mkItem (i_cls it) (i_tid it) (i_state it) (i_cont it) (i_loaded it) (i_running it) (i_modes it) (i_target it) (i_charge it) (i_autos it) (i_cache it) (i_capmap it) l.
+Definition it_set_cont (it : item) c := mkItem (i_cls it) (i_tid it) (i_state it) c (i_loaded it) (i_running it) (i_modes it) (i_target it) (i_charge it) (i_autos it) (i_level it).
+Definition it_set_state (it : item) s := mkItem (i_cls it) (i_tid it) s (i_cont it) (i_loaded it) (i_running it) (i_modes it) (i_target it) (i_charge it) (i_autos it) (i_level it).
+Definition it_set_loaded (it : item) l := mkItem (i_cls it) (i_tid it) (i_state it) (i_cont it) l (i_running it) (i_modes it) (i_target it) (i_charge it) (i_autos it) (i_level it).
+Definition it_set_running (it : item) r := mkItem (i_cls it) (i_tid it) (i_state it) (i_cont it) (i_loaded it) r (i_modes it) (i_target it) (i_charge it) (i_autos it) (i_level it).
+Definition it_set_modes (it : item) m := mkItem (i_cls it) (i_tid it) (i_state it) (i_cont it) (i_loaded it) (i_running it) m (i_target it) (i_charge it) (i_autos it) (i_level it).
+Definition it_set_target (it : item) t := mkItem (i_cls it) (i_tid it) (i_state it) (i_cont it) (i_loaded it) (i_running it) (i_modes it) t (i_charge it) (i_autos it) (i_level it).
+Definition it_set_charge (it : item) c := mkItem (i_cls it) (i_tid it) (i_state it) (i_cont it) (i_loaded it) (i_running it) (i_modes it) (i_target it) c (i_autos it) (i_level it).
+Definition it_set_autos (it : item) a := mkItem (i_cls it) (i_tid it) (i_state it) (i_cont it) (i_loaded it) (i_running it) (i_modes it) (i_target it) (i_charge it) a (i_level it).
+Definition it_set_level (it : item) l := mkItem (i_cls it) (i_tid it) (i_state it) (i_cont it) (i_loaded it) (i_running it) (i_modes it) (i_target it) (i_charge it) (i_autos it) l.
 
 (* fit field access by kind *)
 Definition fit_slot (ft : fit) (k : slotk) : option nat :=
